@@ -56,7 +56,8 @@ def layouts(draw, min_axes=1, max_axes=3, min_n=2, max_n=6, max_cells=400, big_n
         ax = draw(axis_layout(AXIS_NAMES[i], min_n=min_n, max_n=mx, big_n=(big_n and k == 1), **kw))
         budget = max(1, budget // (ax["n"] + 1))
         axes.append(ax)
-    return axes
+    # the order in which the axes are listed (and hence given to Grid(coords=...)) is drawn as well
+    return list(draw(st.permutations(axes)))
 
 
 def extra_dims():
